@@ -47,12 +47,29 @@ Fixpoint tok_eqb (a b : tok) {struct a} : bool :=
   | _, _ => false
   end.
 
-(* int(t.tag.split(".")[-1]); tags outside [0-9]+(.[0-9]+)* are outside the domain (Python raises) *)
+(* int(t.tag.split(".")[-1]).  Python raises ValueError when the last component is not a decimal number
+   (tags "", "x", "0.y" — the tag '' really occurs: known finding scattered-subworkflow-independent-step);
+   [tok_key] is totalised with 0 there, so every statement about [sf_flatten]/[sf_list_merge true] is about the
+   real function only on forests whose tags satisfy [numeric_forest]; [sf_list_merge_opt] is the faithful,
+   partial version (None = ValueError) and is what the correspondence checks. *)
+Definition tok_key_opt (t : tok) : option N := undec (last (split_on "."%char (tok_tag t)) "").
 Definition tok_key (t : tok) : N :=
-  match undec (last (split_on "."%char (tok_tag t)) "") with
+  match tok_key_opt t with
   | Some n => n
   | None => 0%N
   end.
+
+(* every token the flattening sorts (all levels) has a numeric last tag component *)
+Fixpoint numeric_tok (t : tok) : bool :=
+  match tok_key_opt t with
+  | None => false
+  | Some _ => match t with
+              | Tok _ _ => true
+              | LTok _ l => (fix go (l : list tok) : bool :=
+                               match l with [] => true | x :: l' => numeric_tok x && go l' end) l
+              end
+  end.
+Definition numeric_forest (l : list tok) : bool := forallb numeric_tok l.
 
 (* sorted(outputs, key=...) is stable: an element goes before the first one whose key is >= its own,
    elements being inserted from the right *)
@@ -85,15 +102,28 @@ Definition forest_depth (l : list tok) : nat := fold_right (fun x d => Nat.max (
 
 Definition sf_flatten (l : list tok) : list tok := flatten_fuel (S (forest_depth l)) l.
 
-(* ListMergeCombinator.combine once every input has delivered its token *)
+(* Token.retag: own tag only *)
+Definition retag_tok (g : string) (t : tok) : tok :=
+  match t with Tok _ v => Tok g v | LTok _ l => LTok g l end.
+
+(* the tokens of the schema DotProductCombinator._product yields: every input re-tagged get_tag of all of them;
+   a single ListToken input is replaced by its elements (their own tags untouched) *)
+Definition merge_tag (inputs : list tok) : string := get_tag_s (map tok_tag inputs).
+Definition merge_outputs (inputs : list tok) : list tok :=
+  match map (retag_tok (merge_tag inputs)) inputs with
+  | [LTok _ l] => l
+  | rts => rts
+  end.
+
+(* ListMergeCombinator.combine once every input has delivered its token (one token per port, as the
+   dot product matches them); the output carries the common tag (get_tag of equal tags) *)
 Definition sf_list_merge (flatten : bool) (inputs : list tok) : tok :=
-  let '(outputs, tag) :=
-    match inputs with
-    | [LTok g l] => (l, g)
-    | [Tok g v] => ([Tok g v], g)
-    | _ => (inputs, get_tag_s (map tok_tag inputs))
-    end in
-  LTok tag (if flatten then sf_flatten outputs else outputs).
+  LTok (merge_tag inputs) (if flatten then sf_flatten (merge_outputs inputs) else merge_outputs inputs).
+
+(* faithful version: None = ValueError raised by int() inside _flatten_token_list *)
+Definition sf_list_merge_opt (flatten : bool) (inputs : list tok) : option tok :=
+  if flatten && negb (numeric_forest (merge_outputs inputs)) then None
+  else Some (sf_list_merge flatten inputs).
 
 Definition tok_is_null (t : tok) : bool := is_null (tok_value t).
 
